@@ -30,7 +30,7 @@ ASSUMPTIONS = [
 PANIC_RE = re.compile(r"panicked at ([^\n:]+):(\d+):\d+:\n([^\n]*)")
 ASAN_RE = re.compile(r"ERROR: AddressSanitizer: ([A-Za-z0-9_-]+)")
 FRAME_RE = re.compile(r"#\d+ 0x[0-9a-f]+ in (\S+)")
-VALGRIND_ERR_RE = re.compile(r"== (Invalid (?:read|write|free)[^\n]*|Jump to the invalid address[^\n]*|Mismatched free[^\n]*)")
+VALGRIND_ERR_RE = re.compile(r"== (Invalid (?:read|write|free)[^\n]*|Jump to the invalid address[^\n]*|Mismatched free[^\n]*)\n==\d+==\s+(?:at|by) 0x[0-9A-Fa-f]+: (\S+)")
 
 _SEEDS_CACHE = {}
 _MINIMIZED = set()
@@ -237,14 +237,14 @@ def _git_diff(r, name, a, b):
             return run.git(root, "diff", "--cached", "-U%d" % ctxw, check=False)
         run.write_files(root, {name: a})
         run.git(root, "add", "-A")
-        run.git(root, "commit", "-q", "-m", "a")
+        run.git(root, "commit", "-q", "--allow-empty", "-m", "a")
         run.write_files(root, {name: b})
         if variant == 1:
             return run.git(root, "diff", "-U%d" % ctxw, check=False)
         run.git(root, "add", "-A")
         if variant == 2:
             return run.git(root, "diff", "--cached", "-U%d" % ctxw, check=False)
-        run.git(root, "commit", "-q", "-m", "b")
+        run.git(root, "commit", "-q", "--allow-empty", "-m", "b")
         return run.git(root, "diff", "-U%d" % ctxw, "HEAD~1", "HEAD", check=False)
     finally:
         run.rm(root)
@@ -327,7 +327,7 @@ def _valgrind(job, ctx):
         if res.cls == "wall-timeout":
             out.append(Case(INCONCLUSIVE, key=key, summary="valgrind wall timeout", evals=1))
         elif m:
-            out.append(Case(VIOLATED, key=key, nontrivial=True, sig="C04/memcheck:%s/%s" % (m.group(1)[:40], lang),
+            out.append(Case(VIOLATED, key=key, nontrivial=True, sig="C04/memcheck:%s@%s/%s" % (m.group(1)[:40], m.group(2)[:60], lang),
                             summary="memcheck: %s" % res.err_text()[:600], sets=sets,
                             witness={"suffix": suffix, "input": data.decode("utf-8", "replace")[:3000],
                                      "observed": res.brief(3000), "desc": dict(job, i=i)}))
